@@ -110,16 +110,18 @@ def parseIterEv? (s : String) : Option (LoopEv.IterEv Float) :=
 def showReqs (l : List (Loop.Req Float)) : String :=
   showList id (l.reverse.map (fun r => s!"{showFloatBits r.h}:{r.final}:{r.cap}"))
 
-def runScenarioEv (eps tolEps dupTol : Float) (ops : List String) : String := Id.run do
-  let cfg : LoopEv.CfgEv Float := { loop := { eps := eps, tolEps := tolEps, half := 0.5 }, dupTol := dupTol }
+def runScenarioEv (eps tolEps dupTol : Float) (dense : Bool) (ops : List String) : String := Id.run do
+  let cfg : LoopEv.CfgEv Float := { loop := { eps := eps, tolEps := tolEps, half := 0.5 }, dupTol := dupTol, dense := dense }
   let mut sys : Loop.Sys Float := Loop.construct 0.0 1.0 1.0
   let mut evs : List (Nat × Float) := []
+  let mut kn : List Float := []
+  let showK (l : List Float) : String := showList showFloatBits l
   let mut outs : List String := []
   for op in ops do
     match (op.splitOn " ").filter (· ≠ "") with
     | ["new", t0, tf, dt] =>
       match parseFloatBits? t0, parseFloatBits? tf, parseFloatBits? dt with
-      | some t0, some tf, some dt => sys := Loop.construct t0 tf dt; evs := []; outs := dumpSys sys :: outs
+      | some t0, some tf, some dt => sys := Loop.construct t0 tf dt; evs := []; kn := []; outs := s!"{dumpSys sys} K {showK kn}" :: outs
       | _, _, _ => outs := "bad-op" :: outs
     | "evint" :: target :: nev :: rest =>
       let its := match rest with
@@ -130,11 +132,12 @@ def runScenarioEv (eps tolEps dupTol : Float) (ops : List String) : String := Id
       | some target, some nev, some its =>
         let arr := its.toArray
         let orc : LoopEv.OracleEv Float := fun k _ _ => arr.getD k { base := { ret := .raise } }
-        let out := LoopEv.integrateEv cfg sys evs nev target orc (arr.size + 1)
+        let out := LoopEv.integrateEv cfg sys evs kn nev target orc (arr.size + 1)
         sys := out.sys
         evs := out.book.events
+        kn := out.knots
         let ev := showList (fun (e : Nat × Float) => s!"{e.1}@{showFloatBits e.2}") evs
-        outs := s!"{dumpSys sys} G {out.guardExit} P {out.stopped} U {(arr.size : Int) - out.iters} R {showReqs out.reqs} N {showReqs out.nestedReqs} E {ev}" :: outs
+        outs := s!"{dumpSys sys} G {out.guardExit} P {out.stopped} U {(arr.size : Int) - out.iters} R {showReqs out.reqs} N {showReqs out.nestedReqs} E {ev} K {showK kn}" :: outs
       | _, _, _ => outs := "bad-op" :: outs
     | "int" :: target :: rest =>
       let its := match rest with
@@ -146,14 +149,15 @@ def runScenarioEv (eps tolEps dupTol : Float) (ops : List String) : String := Id
         let arr := its.toArray
         let orc : Loop.Oracle Float := fun k _ _ => arr.getD k { ret := .raise }
         let out := Loop.integrate cfg.loop sys target orc (arr.size + 1)
+        kn := LoopEv.plainKnots dense kn sys.ts out.sys.ts
         sys := out.sys
-        outs := s!"{dumpSys sys} G {out.guardExit} U {(arr.size : Int) - out.iters} R {showReqs out.reqs}" :: outs
+        outs := s!"{dumpSys sys} G {out.guardExit} U {(arr.size : Int) - out.iters} R {showReqs out.reqs} K {showK kn}" :: outs
       | _, _ => outs := "bad-op" :: outs
     | ["setdt", v] =>
       match parseFloatBits? v with
-      | some v => sys := Loop.setDt sys v; outs := dumpSys sys :: outs
+      | some v => sys := Loop.setDt sys v; outs := s!"{dumpSys sys} K {showK kn}" :: outs
       | none => outs := "bad-op" :: outs
-    | ["reset"] => sys := Loop.reset sys; evs := []; outs := dumpSys sys :: outs
+    | ["reset"] => sys := Loop.reset sys; evs := []; kn := []; outs := s!"{dumpSys sys} K {showK kn}" :: outs
     | _ => outs := "bad-op" :: outs
   return " | ".intercalate outs.reverse
 
@@ -415,6 +419,11 @@ def stepLine (line : String) : String :=
         s!"{o.success} {showFloatBits o.prec} {o.via} {Solvers.consumerAccepts o dt}"
       | _, _, _, _ => bad
     | _, _, _, _, _ => bad
+  -- consumer <success 0/1> <prec> <desiredTol> : the acceptance test of RungeKuttaIntegrator.step on what nonlinear_roots returned
+  | ["consumer", su, prec, dtol] =>
+    match parseFloatBits? prec, parseFloatBits? dtol with
+    | some pr, some dt => s!"{Solvers.consumerAccepts ({ success := su == "1", prec := pr, via := 0 } : Solvers.Out Float) dt}"
+    | _, _ => bad
   -- jacops <rhsHasJac 0/1> <ops j<t>,h<tag>,u,o>  : Jacobian dispatch machine, answers in order
   | ["jacops", r, ops] =>
     let parse (t : String) : Option Jac.Op :=
@@ -485,9 +494,9 @@ def stepLine (line : String) : String :=
     match parseFloatBits? eps, parseFloatBits? tolEps with
     | some eps, some tolEps => runScenario eps tolEps ((" ".intercalate rest).splitOn "|")
     | _, _ => bad
-  | "loopev" :: eps :: tolEps :: dupTol :: "|" :: rest =>
+  | "loopev" :: eps :: tolEps :: dupTol :: dense :: "|" :: rest =>
     match parseFloatBits? eps, parseFloatBits? tolEps, parseFloatBits? dupTol with
-    | some eps, some tolEps, some dupTol => runScenarioEv eps tolEps dupTol ((" ".intercalate rest).splitOn "|")
+    | some eps, some tolEps, some dupTol => runScenarioEv eps tolEps dupTol (dense == "1") ((" ".intercalate rest).splitOn "|")
     | _, _, _ => bad
   | [] => ""
   | _ => bad
